@@ -235,19 +235,28 @@ class DriverActor(actor.RallyActor):
         self.post_process_timer = 0
         self.cluster_details = {}
 
+    def _close_driver(self):
+        # the notification must reach the benchmark actor even if closing fails as well (e.g. because the metrics store that caused the
+        # failure is still unavailable and cannot persist its remaining records).
+        # noinspection PyBroadException
+        try:
+            self.driver.close()
+        except BaseException:
+            self.logger.exception("Could not close the driver.")
+
     def receiveMsg_PoisonMessage(self, poisonmsg, sender):
         self.logger.error("Main driver received a fatal indication from a load generator (%s). Shutting down.", poisonmsg.details)
-        self.driver.close()
+        self._close_driver()
         self.send(self.benchmark_actor, actor.BenchmarkFailure("Fatal track or load generator indication", poisonmsg.details))
 
     def receiveMsg_BenchmarkFailure(self, msg, sender):
         self.logger.error("Main driver received a fatal exception from a load generator. Shutting down.")
-        self.driver.close()
+        self._close_driver()
         self.send(self.benchmark_actor, msg)
 
     def receiveMsg_BenchmarkCancelled(self, msg, sender):
         self.logger.info("Main driver received a notification that the benchmark has been cancelled.")
-        self.driver.close()
+        self._close_driver()
         self.send(self.benchmark_actor, msg)
 
     def receiveMsg_ActorExitRequest(self, msg, sender):
